@@ -359,6 +359,13 @@ Definition m_op (s o : omd) (op_ : op) : res (omd * out) :=
   (* dict.__or__ / __ror__ on a subclass: merged through keys() and __getitem__ *)
   | OrMap m => do l <- m_items1 s; Ok (s, OPairs (dict_merge l m))
   | ROrMap m => do l <- m_items1 s; Ok (s, OPairs (dict_merge m l))
+  (* KeysView / ValuesView / ItemsView iterate the mapping and index it; dict(d) goes through
+     keys() and __getitem__; bool(d) is len(d) != 0 *)
+  | ViewKeys => Ok (s, OList (m_iterkeys s))
+  | ViewValues => do l <- m_items1 s; Ok (s, OList (map snd l))
+  | ViewItems => do l <- m_items1 s; Ok (s, OPairs l)
+  | DictOf => do l <- m_items1 s; Ok (s, OPairs l)
+  | Truth => Ok (s, OBool (match store s with [] => false | _ => true end))
   (* the loop of update()/update_extend() runs over the well-formed prefix, then the malformed
      item raises (unpacking, or hashing the key in `k not in seen` / dict.setdefault) *)
   | UpdateBad l b => do s1 <- upd_pairs s [] l; Ok (s1, ORaised (bad_exn b))
